@@ -167,6 +167,7 @@ func TestC37(t *testing.T) {
 				labels = append(labels, "b_near_ca_end")
 			}
 			rec.Case(near, desc, labels...)
+			rec.Sample(func() any { return map[string]any{"case": desc, "as_not_after": as.NotAfter.String()} })
 			return
 		}
 		// ---------------- (a) request verification
@@ -278,5 +279,6 @@ func TestC37(t *testing.T) {
 			rt.Fatalf("renewal request accepted although: %s", d)
 		}
 		rec.Case(true, fmt.Sprint("a ", d, k), "a_defect_"+d)
+		rec.Sample(func() any { return map[string]any{"request_defect": d, "rejected_with": verr.Error()[:min(len(verr.Error()), 160)]} })
 	})
 }
